@@ -16,22 +16,49 @@ import numpy as np
 import core
 
 # ============================================================================ manifest texts
-RULE = ("per function of distance3d.distance (34) two generator streams from one PRNG: lattice 'L' (half-integer "
+RULE = ("correspondence: per modelled function (14) lattice / general / malformed streams built around the model's "
+        "branches plus the search's placement generators and the recorded witnesses; "
+        "search: per function of distance3d.distance (34) two generator streams from one PRNG: lattice 'L' (half-integer "
         "coordinates, sizes from {0.5,1,1.5,2,3,4}, signed axis permutations and 3-4-5 / 7-24-25 rotations, second "
         "primitive attached to a feature point (vertex, edge, face, centre, axis, surface point) of the first with "
         "an aligned frame: exactly parallel / perpendicular / coplanar / touching / contained / coincident "
         "placements) and general 'G' (sizes log-uniform in [0.2,1e2], anchors within 1e3 of the origin, random "
         "rotations, near/far offsets, engineered degenerate placements in floats and tiny perturbations of them); "
         "a case is non-trivial if the call returns; distinct = distinct (function, argument tuple)")
-EXPLANATION = ("every generated case is executed on the real code under a watchdog and judged by a definition-level "
+EXPLANATION = ("correspondence: the Lean model is evaluated at Float and at exact Rat on the bit-exact inputs and "
+               "compared with the implementation (values within 1e-12*scale on exact lattice inputs, 1e-9*scale*cond "
+               "otherwise; branch ids F vs Q; ties = zero-margin decisions, arbitrated by exact recomputation); "
+               "search: every generated case is executed on the real code under a watchdog and judged by a definition-level "
                "oracle that does not share code with the library: no exception / timeout, all outputs finite, d >= 0, "
                "each returned point within 1e-9*L of its primitive (line: cross product, segment: clamped projection, "
                "plane: signed offset, triangle: exact point-triangle distance via barycentric test and edges, "
                "rectangle / box: clamping in the local frame, circle / disk: plane offset and radial offset, "
                "ellipsoid and cylinder: solid), | |p1-p2| - d | <= 1e-6*L, and d == 0 => |p1-p2| <= 1e-9*L, "
                "with L = max(1, largest feature size, centre distance)")
-PARTIAL = {}
+PARTIAL = {
+    "planeToEllipsoid_spec / planeToCylinder_spec":
+        "only the tail of plane_to_ellipsoid / plane_to_cylinder after their two support-function calls is modelled "
+        "(planeToSupportPair); planeToSupportPair_spec is proved for every convex body K whose support points in the "
+        "directions -n, +n are supplied; its instantiation with support_function_ellipsoid / support_function_cylinder "
+        "needs C03.ellipsoid_support / C03.cylinder_support (another vertical) and is not composed in Lean here",
+    "f_opt for the 22 functions outside the line/plane family":
+        "point/line/segment to triangle, rectangle, box, disk, circle, ellipsoid, cylinder and the polygon pairs are "
+        "not modelled in this vertical (polygon/solid family: D3/Model/DistPoly.lean of C11); they are covered here by "
+        "the definition-level search oracle only",
+    "planeToHull_* inside the band":
+        "false as stated for the as-is code: planeToHull_asIs_band / planeToTriangle_asIs_counterexample prove the "
+        "defect (finding F-c10-plane-hull-swapped); the positive theorems carry the hypothesis HullNoBand",
+    "float rounding":
+        "all theorems are at exact real arithmetic; the conditioning findings (F-c10-lineline-cancellation, "
+        "F-c10-planeplane-illcond) are rounding effects of the same formulas that are exact at the reals "
+        "(lineToLine_dist, planeToPlane_mem) and are visible only to the search oracle",
+}
 ASSUMPTIONS = [
+    "theorems: unit direction / normal vectors where the docstrings require them (UnitVec hypotheses), default epsilon "
+    "arguments (D3.Gen constants), segments at least sqrt(epsilon) = 1e-3 long for the optimality statements "
+    "(domain P: >= 0.2), epsilon bands excluded by explicit hypotheses exactly where the property excludes them",
+    "np.dot / np.linalg.norm differ from left-to-right evaluation in the last bit: model-Float and implementation are "
+    "compared within 1e-12*scale on exact lattice inputs and 1e-9*scale*condition elsewhere, never by bits",
     "point_to_ellipsoid is called with its default distance_to_surface=False, i.e. the ellipsoid is the solid body; "
     "plane_to_ellipsoid / plane_to_cylinder / point_to_cylinder / point_to_box / *_to_box treat solids as well "
     "(segments between support points / clamped local coordinates)",
@@ -40,19 +67,37 @@ ASSUMPTIONS = [
     "(triangle) or centre (others); L = max(1, feature sizes, distance of the two centres)",
 ]
 TRUSTED = [
+    "hand-written model lean/D3/Model/DistLine.lean of distance/_line.py and distance/_plane.py (+ geometry.py helpers "
+    "hesse_normal_form, convert_segment_to_line, line_from_pluecker, convert_rectangle_to_vertices, "
+    "convert_box_to_vertices), tied by the correspondence run (Float and exact-Rat evaluation of the same term)",
+    "plane_to_ellipsoid / plane_to_cylinder: the two support points are taken from the implementation "
+    "(support_function_ellipsoid / support_function_cylinder are property C03)",
     "oracle of harness/props/c10.py (numpy float64, definition-level membership tests; ellipsoid membership by "
     "first-order (Sampson) distance of the implicit function, exact to second order in the residual)",
     "signal.setitimer watchdog (5 s per call) as the hang detector",
 ]
 MANIFEST = dict(
-    text=("Failing-input search over all 34 functions of distance3d.distance with an independent definition-level "
+    text=("Lean 4 theorems on a faithful model of the line/plane family (point_to_line, point_to_line_segment, "
+          "line_to_line, line_to_line_segment, line_segment_to_line_segment, point_to_plane, line_to_plane, "
+          "line_segment_to_plane, plane_to_plane, plane_to_triangle/rectangle/box, tail of plane_to_ellipsoid/cylinder): "
+          "per function ok (no division by zero / sqrt of a negative in any branch), membership of both returned "
+          "points, d^2 = |p1-p2|^2 with d >= 0, and global optimality against all competing point pairs (KKT / "
+          "variational argument; Ericson's segment-segment clamping proved optimal), epsilon bands as explicit "
+          "hypotheses from the regenerated constants; counterexample theorem for the as-is defect of "
+          "_plane_to_convex_hull_points inside its band. Model tied to /repo by a correspondence run (Float + exact "
+          "Rat evaluation vs implementation, branch coverage, tie arbitration). "
+          "Failing-input search over all 34 functions of distance3d.distance with an independent definition-level "
           "oracle for C10 (finite d >= 0, returned points members of their primitives within 1e-9*L, "
           "| |p1-p2| - d | <= 1e-6*L, d = 0 => points coincide; no exception, hang or NaN) on lattice-degenerate and "
           "general placements of well-formed primitives; recorded defects are replayed on every run."),
-    note=("trusted: the oracle and the generators of harness/props/c10.py; sampling cannot show absence of failing "
+    note=("trusted: Lean kernel + Mathlib, axioms propext/Classical.choice/Quot.sound; exact-real semantics (float "
+          "rounding not modelled: the conditioning findings are rounding effects); hand-written model + correspondence "
+          "harness (sampling); 22 of the 34 functions are covered by the search oracle only in this vertical. "
+          "trusted: the oracle and the generators of harness/props/c10.py; sampling cannot show absence of failing "
           "inputs; known defects are listed in known_findings.d/C10.json and only failures inside their narrowly "
           "defined input class carry the finding id."),
-    technique="definition-level oracle + lattice/general failing-input search on the real code",
+    technique=("Lean 4 proof on hand-written model (line/plane family) + correspondence (Float/Rat model vs code); "
+               "definition-level oracle + lattice/general failing-input search on the real code (all 34 functions)"),
     design="§7 C10")
 
 TOL_MEMBER = 1e-9
@@ -407,13 +452,6 @@ def _whats(problems):
     return sorted(p["what"] for p in problems)
 
 
-def _detail(problems, what):
-    for p in problems:
-        if p["what"] == what:
-            return p["detail"]
-    return None
-
-
 def _v(args, name):
     return np.array(args[name], dtype=np.float64)
 
@@ -440,7 +478,8 @@ def _cls_disk_parallel_origin(fname, args, problems):
     if fname != "disk_to_disk" or not set(_whats(problems)) <= {"p1-not-on-disk", "p2-not-on-disk"}:
         return False
     c1, n1, c2, n2, cr, mom = _disk_pluecker(args)
-    return (not cr.any() and float(mom.dot(mom)) >= 1e-8
+    origin_returned = all(not np.array(pb["detail"][k]).any() for pb in problems for k in ("p1", "p2"))
+    return (not cr.any() and float(mom.dot(mom)) >= 1e-8 and origin_returned
             and np.linalg.norm(c1) < args["radius1"] and np.linalg.norm(c2) < args["radius2"])
 
 
@@ -452,7 +491,13 @@ def _cls_disk_near_coplanar(fname, args, problems):
     c1, n1, c2, n2, cr, mom = _disk_pluecker(args)
     same_plane_test = float(cr.dot(cr)) < 1e-8 and float(mom.dot(mom)) < 1e-8
     exactly_coplanar = (not cr.any()) and float(n1.dot(c2 - c1)) == 0.0
-    return same_plane_test and not exactly_coplanar
+    if not same_plane_test or exactly_coplanar:
+        return False
+    u = (c2 - c1) / max(float(np.linalg.norm(c2 - c1)), 1e-300)
+    q1, q2 = c1 + float(args["radius1"]) * u, c2 - float(args["radius2"]) * u
+    scale = 1e-12 * max(1.0, float(np.abs(q1).max()), float(np.abs(q2).max()))
+    det = problems[0]["detail"]
+    return _norm(np.array(det["p1"]) - q1) <= scale and _norm(np.array(det["p2"]) - q2) <= scale
 
 
 def _cls_disk_midpoint(fname, args, problems):
@@ -474,6 +519,19 @@ def _cls_disk_midpoint(fname, args, problems):
     mid = 0.5 * (c1 + c2)
     is_mid = all(np.array_equal(np.array(pb["detail"][k]), mid) for pb in problems for k in ("p1", "p2"))
     return h1 + h2 <= 1e-8 * (1 + 1e-6) and ell <= (r1 + r2) * (1.0 + 1e-12) and is_mid
+
+
+def _cls_disk_illconditioned_intersection(fname, args, problems):
+    """almost parallel disk planes (|n1 x n2| <= 1e-3) that intersect inside both disks: the common point is taken
+    on the Pluecker line of the two planes (coordinates relative to the ORIGIN, divided by |n1 x n2|^2); its plane
+    residuals are rounding errors amplified by 1/|n1 x n2| (> 1e-9*L, < 1e-6*L)."""
+    if fname != "disk_to_disk" or not set(_whats(problems)) <= {"p1-not-on-disk", "p2-not-on-disk"}:
+        return False
+    c1, n1, c2, n2, cr, mom = _disk_pluecker(args)
+    s = float(np.linalg.norm(cr))
+    same_point = all(pb["detail"]["p1"] == pb["detail"]["p2"] and pb["detail"]["d"] == 0.0 for pb in problems)
+    return (0.0 < s <= 1e-3 and same_point
+            and all(pb["detail"]["residual"] <= 1e-6 * pb["detail"]["L"] for pb in problems))
 
 
 # ---- line / segment to box --------------------------------------------------------------------------------------
@@ -510,16 +568,34 @@ def _cls_linebox_sqrt_negative(fname, args, problems):
     return _line_box_slab_gap(fname, args, 1e-7 * scene_scale(fname, args))
 
 
-def _cls_linebox_illconditioned_zero(fname, args, problems):
-    """line meets the box (d = 0.0 returned, both points are members) with a direction that is almost but not
-    exactly parallel to a box face (some box-frame direction component in (0, 1e-6]): the two returned points of
-    the ill-conditioned intersection differ by more than 1e-9*L (but less than 1e-6*L)."""
+def _cls_linebox_cancellation_zero(fname, args, problems):
+    """same root cause as the sqrt failure: the squared distance is assembled from the expanded quadratic form
+    (a^2 + b^2 + c^2 + delta*t with terms of size |line_point - box centre|^2) and cancels to exactly 0.0 although
+    the returned (member) points are a positive distance <= 1e-7*max(1, |line_point - box centre|) apart."""
     if fname not in ("line_to_box", "line_segment_to_box") or _whats(problems) != ["zero-distance-distinct-points"]:
         return False
-    det = problems[0]["detail"]
     x, d, h = _line_in_box_frame(fname, args)
-    near_parallel = any(0.0 < abs(di) <= 1e-6 for di in d)
-    return near_parallel and det["|p1-p2|"] <= 1e-6 * det["L"]
+    return problems[0]["detail"]["|p1-p2|"] <= 1e-7 * max(1.0, _norm(x))
+
+
+# ---- line / segment to triangle / rectangle -----------------------------------------------------------------------
+def _cls_lineflat_illconditioned_zero(fname, args, problems):
+    """line (segment) almost parallel to the plane of the triangle / rectangle, just above the function's threshold
+    (1e-6 < |n . dir| <= 1e-3), piercing it: d = 0.0 is returned with the line point and the triangle / rectangle
+    point computed separately from an ill-conditioned 2x2 system; they differ by rounding / |n . dir|."""
+    if fname not in ("line_to_triangle", "line_segment_to_triangle", "line_to_rectangle",
+                     "line_segment_to_rectangle") or _whats(problems) != ["zero-distance-distinct-points"]:
+        return False
+    p, d = _supporting_line(fname, args)
+    if fname.endswith("triangle"):
+        V = _v(args, "triangle_points")
+        n = np.cross(V[1] - V[0], V[2] - V[0])
+    else:
+        ax = _v(args, "rectangle_axes")
+        n = np.cross(ax[0], ax[1])
+    c = abs(float(n.dot(d))) / float(np.linalg.norm(n))
+    det = problems[0]["detail"]
+    return 1e-6 * (1 - 1e-9) < c <= 1e-3 and det["|p1-p2|"] <= 1e-6 * det["L"]
 
 
 # ---- circle ------------------------------------------------------------------------------------------------------
@@ -602,8 +678,8 @@ def _cls_plane_hull_swapped(fname, args, problems):
         V = _v(args, "triangle_points")
     else:
         c, ax, ln = _v(args, "rectangle_center"), _v(args, "rectangle_axes"), _v(args, "rectangle_lengths")
-        V = np.array([c + sx * 0.5 * ln[0] * ax[0] + sy * 0.5 * ln[1] * ax[1]
-                      for sx in (-1.0, 1.0) for sy in (-1.0, 1.0)])
+        # same arithmetic as geometry.convert_rectangle_to_vertices: the sign of a rounding-level offset decides
+        V = c + (np.array([[-0.5, -0.5], [-0.5, 0.5], [0.5, -0.5], [0.5, 0.5]]) * ln).dot(ax)
     ts = (V - p).dot(n)
     i0, i1 = int(np.argmin(ts)), int(np.argmax(ts))
     if not ts[i0] * ts[i1] < 0.0:
@@ -635,13 +711,18 @@ def _cls_tritri_eps_zero(fname, args, problems):
 
 # ---- line_to_line -------------------------------------------------------------------------------------------------------
 def _cls_lineline_cancellation(fname, args, problems):
-    """lines that pass within ~1e-7*|line_point1 - line_point2| of each other (witnessed by the returned member
-    points): d is evaluated from the expanded quadratic form (t1*(t1 + a12*t2 + 2*b1) + ... + c, parallel branch
-    c - b1^2), which cancels catastrophically, so d = 0.0 is returned for distinct closest points."""
-    if fname != "line_to_line" or _whats(problems) != ["zero-distance-distinct-points"]:
+    """d is evaluated from the expanded quadratic form t1*(t1 + a12*t2 + 2*b1) + t2*(a12*t1 + t2 + 2*b2) + c
+    (parallel branch: c - b1^2) instead of from the returned points; its terms have size S^2 with
+    S = max(|line_point1 - line_point2|, |t1|, |t2|), so d carries an error ~1e-8*S: d = 0.0 for distinct closest
+    points, or |d - |p1-p2|| > 1e-6*L when the closest points are far from the anchors (nearly parallel lines)."""
+    w = set(_whats(problems))
+    if fname != "line_to_line" or not w or not w <= {"zero-distance-distinct-points", "distance-inconsistent"}:
         return False
-    diff = _v(args, "line_point1") - _v(args, "line_point2")
-    return problems[0]["detail"]["|p1-p2|"] <= 1e-7 * max(1.0, _norm(diff))
+    det = problems[0]["detail"]
+    a1, a2 = _v(args, "line_point1"), _v(args, "line_point2")
+    S = max(1.0, _norm(a1 - a2), _norm(np.array(det["p1"]) - a1), _norm(np.array(det["p2"]) - a2))
+    gap = _norm(np.array(det["p1"]) - np.array(det["p2"]))
+    return abs(det["d"] - gap) <= 1e-7 * S
 
 
 # list of (id, predicate(fname, args, problems) -> bool); first match wins
@@ -649,8 +730,10 @@ _FINDING_CLASSES = [
     ("F-c10-disk-parallel-origin", _cls_disk_parallel_origin),
     ("F-c10-disk-near-coplanar", _cls_disk_near_coplanar),
     ("F-c10-disk-midpoint", _cls_disk_midpoint),
+    ("F-c10-disk-illcond-intersection", _cls_disk_illconditioned_intersection),
     ("F-c10-linebox-sqrt-negative", _cls_linebox_sqrt_negative),
-    ("F-c10-linebox-illcond-zero", _cls_linebox_illconditioned_zero),
+    ("F-c10-linebox-cancellation-zero", _cls_linebox_cancellation_zero),
+    ("F-c10-lineflat-illcond-zero", _cls_lineflat_illconditioned_zero),
     ("F-c10-linecircle-axis-exact", _cls_linecircle_axis(True)),
     ("F-c10-linecircle-axis-rounding", _cls_linecircle_axis(False)),
     ("F-c10-segcircle-param-illcond", _cls_segcircle_param),
@@ -1006,6 +1089,7 @@ def _anchor_points(pr):
 
 
 _RANK = {"point": 0, "line": 1, "plane": 1, "segment": 2}
+PERTURB_P = 0.3     # share of engineered general-stream placements that get a tiny rigid perturbation
 
 
 def gen_pair(rng, kinds, stream):
@@ -1052,7 +1136,7 @@ def gen_pair(rng, kinds, stream):
                 off = "offset"
             B["c"] = q - B["R"].dot(fb)
             tag = "%s/%s/%s" % (ta, tb, off)
-            if (not src.lat) and r.random() < 0.3:
+            if (not src.lat) and r.random() < PERTURB_P:
                 # tiny perturbation of the engineered placement: rotation about the contact point + translation
                 ang = 10.0 ** r.uniform(-9.0, -2.0)
                 Rp = _rot_axis_angle(src.unit(), ang)
@@ -1104,19 +1188,731 @@ def check_case(ctx, fname, args, stream, tag=None):
         short = tag.split("/")[-1] if "/" in tag else tag
         pc[short] = pc.get(short, 0) + 1
     if probs:
+        fid = finding_for(fname, args, probs)
         observed = {"problems": probs, "returned": {k: res.get(k) for k in ("d", "p1", "p2", "err", "msg") if k in res}}
-        ctx.fail(fname, args, observed, EXPECTED, ORACLE_DESCRIPTION, finding=finding_for(fname, args, probs))
+        ctx.fail(fname, args, observed, EXPECTED, ORACLE_DESCRIPTION, finding=fid)
+        hits = ctx.extra.setdefault("failing_cases_by_finding", {})
+        hits[str(fid)] = hits.get(str(fid), 0) + 1
     return res, probs
 
 
 # ============================================================================ harness entry points
+# ====================================================================== correspondence (Lean model vs implementation)
+# Model: lean/D3/Model/DistLine.lean (line and plane family), driver: lean/D3/Driver/C10.lean.
+from fractions import Fraction
+
+from core import f2h
+
+MODELLED = ["point_to_line", "point_to_line_segment", "line_to_line", "line_to_line_segment",
+            "line_segment_to_line_segment", "point_to_plane", "line_to_plane", "line_segment_to_plane",
+            "plane_to_plane", "plane_to_triangle", "plane_to_rectangle", "plane_to_box",
+            # only the tail after the two support-function calls is modelled (planeToSupportPair); the support
+            # points are taken from the implementation (their correctness is property C03)
+            "plane_to_ellipsoid", "plane_to_cylinder"]
+
+# branch ids of the model that well-formed or malformed inputs can reach (coverage is reported against this table)
+EXPECTED_BRANCHES = {
+    "line_to_line": [0, 1], "line_to_line_segment": [0, 1, 2, 3, 4],
+    "line_segment_to_line_segment": [0, 1, 2, 30, 31, 32, 40, 41, 42],
+    "point_to_line_segment": [0, 1, 2, "err:divZero"], "line_to_plane": [0, 1],
+    "line_segment_to_plane": [0, 1, 2, 3], "plane_to_plane": [0, 1],
+    "plane_to_triangle": [0, 3, 10], "plane_to_rectangle": [0, 3, 10], "plane_to_box": [0, 10],
+    "plane_to_ellipsoid": [0, 10], "plane_to_cylinder": [0, 10],
+}
+
+AXES = [(1, 0, 0), (0, 1, 0), (0, 0, 1), (-1, 0, 0), (0, -1, 0), (0, 0, -1)]
+PYTH = [(0.6, 0.8, 0.0), (0.8, 0.6, 0.0), (0.0, 0.6, 0.8), (0.6, 0.0, 0.8), (-0.6, 0.8, 0.0), (0.0, -0.8, 0.6),
+        (0.8, 0.0, -0.6)]
+HALF = [x * 0.5 for x in range(-6, 7)]
+
+
+def _lat_point(rng):
+    return [rng.choice(HALF) for _ in range(3)]
+
+
+def _lat_unit(rng, exact_only=False):
+    if exact_only or rng.random() < 0.6:
+        return [float(x) for x in rng.choice(AXES)]
+    return list(rng.choice(PYTH))
+
+
+def _rand_unit(rng):
+    while True:
+        v = np.array([rng.gauss(0, 1) for _ in range(3)])
+        n = np.linalg.norm(v)
+        if n > 1e-3:
+            v = v / n
+            v = v / np.linalg.norm(v)
+            return v.tolist()
+
+
+def _perp_to(rng, n):
+    """an exactly perpendicular lattice unit vector for axis / 3-4-5 normals"""
+    n = np.array(n, dtype=float)
+    cands = [np.array(a, dtype=float) for a in AXES] + [np.array(p) for p in PYTH] + [-np.array(p) for p in PYTH]
+    for p in PYTH:
+        cands.append(np.array([-p[1], p[0], p[2]]) if p[2] == 0 else
+                     (np.array([p[0], -p[2], p[1]]) if p[0] == 0 else np.array([-p[2], p[1], p[0]])))
+    good = [c for c in cands if np.dot(c, n) == 0.0]
+    return rng.choice(good).tolist() if good else None
+
+
+def _lat_rot(rng):
+    """signed permutation, optionally composed with a 3-4-5 rotation about z"""
+    perm = rng.sample(range(3), 3)
+    R = np.zeros((3, 3))
+    for i, j in enumerate(perm):
+        R[i, j] = rng.choice([-1.0, 1.0])
+    if np.linalg.det(R) < 0:
+        R[0] = -R[0]
+    if rng.random() < 0.4:
+        c, s = rng.choice([(0.6, 0.8), (0.8, 0.6), (0.8, -0.6)])
+        R = R.dot(np.array([[c, -s, 0], [s, c, 0], [0, 0, 1.0]]))
+    return R
+
+
+def _rand_rot(rng):
+    A = np.array([[rng.gauss(0, 1) for _ in range(3)] for _ in range(3)])
+    Q, Rr = np.linalg.qr(A)
+    Q = Q * np.sign(np.diag(Rr))
+    if np.linalg.det(Q) < 0:
+        Q[:, 0] = -Q[:, 0]
+    return Q
+
+
+def _gen_scale(rng):
+    return 10 ** rng.uniform(math.log10(0.2), 2)
+
+
+def _rand_point(rng, s):
+    return [rng.uniform(-1, 1) * s for _ in range(3)]
+
+
+def corr_gen(rng, fname, stream):
+    """Generate one argument dict (plain lists/floats, keyed by the function's parameter names),
+    built around the model's decisions."""
+    L = stream == "L"
+    pt = (lambda: _lat_point(rng)) if L else None
+    s = 1.0 if L else _gen_scale(rng)
+    if not L:
+        off = rng.choice([0.0, 1.0, 1.0, 10.0]) * s
+        base = np.array(_rand_point(rng, off))
+        pt = lambda: (base + np.array(_rand_point(rng, s))).tolist()  # noqa
+    unit = (lambda: _lat_unit(rng)) if L else (lambda: _rand_unit(rng))
+    kind = rng.random()
+
+    def seg(minlen=0.2):
+        while True:
+            a, b = pt(), pt()
+            if np.linalg.norm(np.array(a) - np.array(b)) >= minlen:
+                return a, b
+
+    def on_line(p, d, t):
+        return (np.array(p) + t * np.array(d)).tolist()
+
+    if fname == "point_to_line":
+        lp, ld = pt(), unit()
+        p = pt()
+        if kind < 0.25:
+            p = on_line(lp, ld, rng.choice(HALF) if L else rng.uniform(-s, s))
+        elif kind < 0.35:
+            p = list(lp)
+        return {"point": p, "line_point": lp, "line_direction": ld}
+    if fname == "point_to_line_segment":
+        a, b = seg()
+        p = pt()
+        if kind < 0.2:
+            p = on_line(a, (np.array(b) - np.array(a)).tolist(), rng.choice([-1.0, -0.5, 0.0, 0.25, 0.5, 1.0, 1.5, 2.0]))
+        elif kind < 0.3:
+            p = list(rng.choice([a, b]))
+        return {"point": p, "segment_start": a, "segment_end": b}
+    if fname == "line_to_line":
+        lp1, ld1, lp2, ld2 = pt(), unit(), pt(), unit()
+        if kind < 0.25:
+            ld2 = list(ld1) if rng.random() < 0.5 else (-np.array(ld1)).tolist()
+        elif kind < 0.35:
+            ld2 = list(ld1)
+            lp2 = on_line(lp1, ld1, rng.choice(HALF) if L else rng.uniform(-s, s))   # coincident
+        elif kind < 0.5:
+            lp2 = on_line(lp1, ld1, rng.choice(HALF) if L else rng.uniform(-s, s))   # intersecting
+        elif kind < 0.6 and not L:
+            # nearly parallel, on both sides of the epsilon test |det| >= 1e-6  (det ~ angle^2)
+            ang = 10 ** rng.uniform(-5, -1)
+            q = np.array(_rand_unit(rng))
+            v = np.array(ld1) + ang * q
+            ld2 = (v / np.linalg.norm(v)).tolist()
+        return {"line_point1": lp1, "line_direction1": ld1, "line_point2": lp2, "line_direction2": ld2}
+    if fname == "line_to_line_segment":
+        lp, ld = pt(), unit()
+        a, b = seg()
+        if kind < 0.25:       # parallel
+            ln = rng.choice([0.5, 1.0, 2.0, 3.0]) if L else rng.uniform(0.2, 2) * s
+            b = on_line(a, ld, ln * rng.choice([-1, 1]))
+        elif kind < 0.35:     # segment inside the line
+            a = on_line(lp, ld, rng.choice(HALF) if L else rng.uniform(-s, s))
+            b = on_line(a, ld, rng.choice([0.5, 1.0, 2.0]) if L else rng.uniform(0.2, 2) * s)
+        elif kind < 0.5:      # segment start / end on the line
+            q = on_line(lp, ld, rng.choice(HALF) if L else rng.uniform(-s, s))
+            if np.linalg.norm(np.array(q) - np.array(b)) >= 0.2:
+                a = q
+        return {"line_point": lp, "line_direction": ld, "segment_start": a, "segment_end": b}
+    if fname == "line_segment_to_line_segment":
+        a0, a1 = seg()
+        b0, b1 = seg()
+        d1 = np.array(a1) - np.array(a0)
+        if kind < 0.2:        # parallel, shifted
+            k = rng.choice([-2.0, -1.0, -0.5, 0.5, 1.0, 2.0])
+            b1 = (np.array(b0) + k * d1).tolist()
+        elif kind < 0.3:      # collinear (overlapping, touching or disjoint)
+            t0 = rng.choice([-2.0, -1.0, -0.5, 0.0, 0.5, 1.0, 1.5, 2.0])
+            k = rng.choice([-1.0, -0.5, 0.5, 1.0, 2.0])
+            b0 = (np.array(a0) + t0 * d1).tolist()
+            b1 = (np.array(b0) + k * d1).tolist()
+        elif kind < 0.4:      # sharing an endpoint / touching
+            b0 = list(rng.choice([a0, a1, (0.5 * (np.array(a0) + np.array(a1))).tolist()]))
+            if np.linalg.norm(np.array(b0) - np.array(b1)) < 0.2:
+                b1 = (np.array(b0) + np.array([0.0, 0.0, 1.0]) * s).tolist()
+        elif kind < 0.45:     # identical
+            b0, b1 = list(a0), list(a1)
+        return {"segment_start1": a0, "segment_end1": a1, "segment_start2": b0, "segment_end2": b1}
+    if fname == "point_to_plane":
+        pp, n = pt(), unit()
+        p = pt()
+        if kind < 0.2:
+            p = list(pp)
+        elif kind < 0.4 and L:
+            q = _perp_to(rng, n)
+            if q is not None:
+                p = on_line(pp, q, rng.choice(HALF))
+        return {"point": p, "plane_point": pp, "plane_normal": n}
+    if fname == "line_to_plane":
+        pp, n = pt(), unit()
+        lp, ld = pt(), unit()
+        if kind < 0.3:        # parallel (exactly perpendicular to the normal)
+            q = _perp_to(rng, n) if L else None
+            if q is None:
+                v = np.cross(n, _rand_unit(rng))
+                q = (v / np.linalg.norm(v)).tolist()
+            ld = q
+            if kind < 0.1:
+                lp = on_line(pp, q, rng.choice(HALF) if L else rng.uniform(-s, s))   # in the plane
+        elif kind < 0.4:
+            ld = list(n)
+        elif kind < 0.5 and not L:   # nearly parallel on both sides of l*l < 1e-6
+            v = np.cross(n, _rand_unit(rng))
+            v = v / np.linalg.norm(v) + 10 ** rng.uniform(-5, -1) * np.array(n)
+            ld = (v / np.linalg.norm(v)).tolist()
+        return {"line_point": lp, "line_direction": ld, "plane_point": pp, "plane_normal": n}
+    if fname == "line_segment_to_plane":
+        pp, n = pt(), unit()
+        a, b = seg()
+        if kind < 0.25:       # parallel
+            q = _perp_to(rng, n) if L else None
+            if q is None:
+                v = np.cross(n, _rand_unit(rng))
+                q = (v / np.linalg.norm(v)).tolist()
+            b = on_line(a, q, rng.choice([0.5, 1.0, 2.0, -1.0]) if L else rng.uniform(0.2, 2) * s)
+            if kind < 0.1:
+                a = on_line(pp, q, rng.choice(HALF) if L else rng.uniform(-s, s))
+                b = on_line(a, q, rng.choice([0.5, 1.0, 2.0, -1.0]) if L else rng.uniform(0.2, 2) * s)
+        elif kind < 0.4:      # touching with an end point
+            q = _perp_to(rng, n) if L else None
+            if q is not None:
+                e = on_line(pp, q, rng.choice(HALF))
+                if np.linalg.norm(np.array(e) - np.array(a)) >= 0.2:
+                    b = e
+                    if rng.random() < 0.5:
+                        a, b = b, a
+        elif kind < 0.5:      # perpendicular
+            b = on_line(a, n, rng.choice([0.5, 1.0, 2.0, -1.0, -3.0]) if L else rng.uniform(0.2, 2) * s)
+        return {"segment_start": a, "segment_end": b, "plane_point": pp, "plane_normal": n}
+    if fname == "plane_to_plane":
+        pp1, n1, pp2, n2 = pt(), unit(), pt(), unit()
+        if kind < 0.3:
+            n2 = list(n1) if rng.random() < 0.5 else (-np.array(n1)).tolist()
+        elif kind < 0.4:
+            n2 = list(n1)
+            pp2 = list(pp1)
+        elif kind < 0.5 and not L:   # nearly parallel on both sides of |n1 x n2| > 1e-6
+            v = np.array(n1) + 10 ** rng.uniform(-8, -4) * np.array(_rand_unit(rng))
+            n2 = (v / np.linalg.norm(v)).tolist()
+        return {"plane_point1": pp1, "plane_normal1": n1, "plane_point2": pp2, "plane_normal2": n2}
+    if fname == "plane_to_triangle":
+        pp, n = pt(), unit()
+        while True:
+            tri = [pt(), pt(), pt()]
+            ar = np.linalg.norm(np.cross(np.array(tri[1]) - np.array(tri[0]), np.array(tri[2]) - np.array(tri[0])))
+            el = min(np.linalg.norm(np.array(tri[i]) - np.array(tri[(i + 1) % 3])) for i in range(3))
+            if ar >= 0.02 * s * s and el >= 0.2:
+                break
+        if kind < 0.15:
+            pp = list(tri[0])                       # vertex in the plane
+        elif kind < 0.3 and L:
+            q = _perp_to(rng, n)                    # an edge parallel to the plane
+            if q is not None:
+                tri[1] = on_line(tri[0], q, rng.choice([0.5, 1.0, 2.0]))
+                ar = np.linalg.norm(np.cross(np.array(tri[1]) - np.array(tri[0]), np.array(tri[2]) - np.array(tri[0])))
+                if ar < 0.02:
+                    tri[2] = (np.array(tri[2]) + np.array(n)).tolist()
+        return {"plane_point": pp, "plane_normal": n, "triangle_points": tri}
+    if fname == "plane_to_rectangle":
+        pp, n = pt(), unit()
+        R = _lat_rot(rng) if L else _rand_rot(rng)
+        c = pt()
+        lens = [rng.choice([0.5, 1.0, 2.0, 3.0]) if L else _gen_scale(rng) for _ in range(2)]
+        if kind < 0.25:
+            n = R[:, 2].tolist()                    # parallel to the plane
+            if kind < 0.1:
+                pp = list(c)
+        elif kind < 0.4:
+            n = R[:, 0].tolist()                    # perpendicular, two edges parallel
+        return {"plane_point": pp, "plane_normal": n, "rectangle_center": c,
+                "rectangle_axes": [R[:, 0].tolist(), R[:, 1].tolist()], "rectangle_lengths": lens}
+    if fname == "plane_to_box":
+        pp, n = pt(), unit()
+        R = _lat_rot(rng) if L else _rand_rot(rng)
+        c = pt()
+        size = [rng.choice([0.5, 1.0, 2.0, 3.0]) if L else _gen_scale(rng) for _ in range(3)]
+        if kind < 0.3:
+            n = R[:, rng.randrange(3)].tolist()      # a face parallel to the plane
+            if kind < 0.15:                         # touching
+                k = rng.randrange(3)
+                n = R[:, k].tolist()
+                pp = (np.array(c) + 0.5 * size[k] * R[:, k]).tolist()
+        elif kind < 0.4:
+            pp = list(c)
+        T = np.eye(4)
+        T[:3, :3] = R
+        T[:3, 3] = c
+        return {"plane_point": pp, "plane_normal": n, "box2origin": T.tolist(), "size": size}
+    if fname in ("plane_to_ellipsoid", "plane_to_cylinder"):
+        pp, n = pt(), unit()
+        R = _lat_rot(rng) if L else _rand_rot(rng)
+        c = pt()
+        if kind < 0.3:
+            n = R[:, rng.randrange(3)].tolist()      # plane normal along a body axis
+        elif kind < 0.4:
+            pp = list(c)                            # plane through the centre
+        T = np.eye(4)
+        T[:3, :3] = R
+        T[:3, 3] = c
+        if fname == "plane_to_ellipsoid":
+            radii = [rng.choice([0.5, 1.0, 2.0, 3.0]) if L else _gen_scale(rng) for _ in range(3)]
+            return {"plane_point": pp, "plane_normal": n, "ellipsoid2origin": T.tolist(), "radii": radii}
+        return {"plane_point": pp, "plane_normal": n, "cylinder2origin": T.tolist(),
+                "radius": rng.choice([0.5, 1.0, 2.0]) if L else _gen_scale(rng),
+                "length": rng.choice([0.5, 1.0, 3.0]) if L else _gen_scale(rng)}
+    raise KeyError(fname)
+
+
+def corr_gen_edge(rng, fname):
+    """malformed / edge stream: zero-length and sub-epsilon segments, zero directions, non-unit directions —
+    reaches the degenerate branches (0, 1, 2) and the `divZero` outcome of the model"""
+    tiny = lambda: [rng.choice([0.0, 2.0 ** -12, -2.0 ** -11, 2.0 ** -10]) for _ in range(3)]  # noqa
+    p = lambda: _lat_point(rng)  # noqa
+    add = lambda a, b: (np.array(a) + np.array(b)).tolist()  # noqa
+    k = rng.random()
+    if fname == "point_to_line_segment":
+        a = p()
+        return {"point": p(), "segment_start": a, "segment_end": list(a) if k < 0.5 else add(a, tiny())}
+    if fname == "line_to_line_segment":
+        a = p()
+        ld = [0.0, 0.0, 0.0] if k < 0.3 else (tiny() if k < 0.5 else _lat_unit(rng, True))
+        b = add(a, tiny()) if rng.random() < 0.7 else p()
+        return {"line_point": p(), "line_direction": ld, "segment_start": a, "segment_end": b}
+    if fname == "line_segment_to_line_segment":
+        a0, b0 = p(), p()
+        a1 = add(a0, tiny()) if k < 0.66 else p()
+        b1 = add(b0, tiny()) if (k < 0.33 or k >= 0.66) else p()
+        return {"segment_start1": a0, "segment_end1": a1, "segment_start2": b0, "segment_end2": b1}
+    if fname == "line_segment_to_plane":
+        a = p()
+        return {"segment_start": a, "segment_end": list(a) if k < 0.5 else add(a, tiny()),
+                "plane_point": p(), "plane_normal": _lat_unit(rng, True)}
+    if fname == "line_to_line":
+        return {"line_point1": p(), "line_direction1": [rng.choice([0.0, 1.0, 2.0, -0.5]) for _ in range(3)],
+                "line_point2": p(), "line_direction2": [rng.choice([0.0, 1.0, 2.0, -0.5]) for _ in range(3)]}
+    if fname == "line_to_plane":
+        return {"line_point": p(), "line_direction": [rng.choice([0.0, 1.0, -0.5]) for _ in range(3)],
+                "plane_point": p(), "plane_normal": [rng.choice([0.0, 1.0, 0.5]) for _ in range(3)]}
+    return None
+
+
+def _vec(x):
+    return np.ascontiguousarray(np.array(x, dtype=np.float64))
+
+
+def corr_impl(fname, args):
+    """Call the real function; returns dict(d, p1, p2[, t1, t2]) (for point_to_X: p1 = the point)."""
+    import distance3d.distance as dd
+    from distance3d.distance import _line as dl
+    a = {k: (_vec(v) if isinstance(v, list) else v) for k, v in args.items()}
+    if fname == "point_to_line":
+        d, p, t = dl._point_to_line(a["point"], a["line_point"], a["line_direction"])
+        d2, p2 = dd.point_to_line(_vec(args["point"]), a["line_point"], a["line_direction"])
+        assert float(d2) == float(d) or (d != d and d2 != d2)
+        return {"d": float(d), "p1": args["point"], "p2": p.tolist(), "t1": float(t)}
+    if fname == "point_to_line_segment":
+        d, p = dd.point_to_line_segment(a["point"], a["segment_start"], a["segment_end"])
+        return {"d": float(d), "p1": args["point"], "p2": p.tolist()}
+    if fname == "line_to_line":
+        eps = 1e-6
+        import inspect
+        eps = inspect.signature(dd.line_to_line).parameters["epsilon"].default
+        d, p1, p2, t1, t2 = dl._line_to_line(a["line_point1"], a["line_direction1"], a["line_point2"],
+                                              a["line_direction2"], eps)
+        d_, p1_, p2_ = dd.line_to_line(a["line_point1"], a["line_direction1"], a["line_point2"],
+                                       a["line_direction2"])
+        assert float(d_) == float(d)
+        return {"d": float(d), "p1": p1.tolist(), "p2": p2.tolist(), "t1": float(t1), "t2": float(t2)}
+    if fname == "line_to_line_segment":
+        import inspect
+        eps = inspect.signature(dd.line_to_line_segment).parameters["epsilon"].default
+        d, p1, p2, t, s = dl._line_to_line_segment(a["line_point"], a["line_direction"], a["segment_start"],
+                                                    a["segment_end"], eps)
+        d_, _, _ = dd.line_to_line_segment(a["line_point"], a["line_direction"], a["segment_start"],
+                                           a["segment_end"])
+        assert float(d_) == float(d)
+        return {"d": float(d), "p1": p1.tolist(), "p2": p2.tolist(), "t1": float(t), "t2": float(s)}
+    if fname == "line_segment_to_line_segment":
+        d, p1, p2 = dd.line_segment_to_line_segment(a["segment_start1"], a["segment_end1"], a["segment_start2"],
+                                                    a["segment_end2"])
+        return {"d": float(d), "p1": p1.tolist(), "p2": p2.tolist()}
+    if fname == "point_to_plane":
+        d, p = dd.point_to_plane(a["point"], a["plane_point"], a["plane_normal"])
+        return {"d": float(d), "p1": args["point"], "p2": p.tolist()}
+    if fname in ("plane_to_ellipsoid", "plane_to_cylinder"):
+        from distance3d import geometry as gm
+        n = a["plane_normal"]
+        if fname == "plane_to_ellipsoid":
+            T, rad = a["ellipsoid2origin"], a["radii"]
+            s1 = gm.support_function_ellipsoid(-n, T, rad)
+            s2 = gm.support_function_ellipsoid(n, T, rad)
+            d, p1, p2 = dd.plane_to_ellipsoid(a["plane_point"], n, T, rad)
+        else:
+            T = a["cylinder2origin"]
+            s1 = gm.support_function_cylinder(-n, T, float(args["radius"]), float(args["length"]))
+            s2 = gm.support_function_cylinder(n, T, float(args["radius"]), float(args["length"]))
+            d, p1, p2 = dd.plane_to_cylinder(a["plane_point"], n, T, float(args["radius"]), float(args["length"]))
+        return {"d": float(d), "p1": np.asarray(p1).tolist(), "p2": np.asarray(p2).tolist(),
+                "support": np.asarray(s1).tolist() + np.asarray(s2).tolist()}
+    order = {
+        "line_to_plane": ["line_point", "line_direction", "plane_point", "plane_normal"],
+        "line_segment_to_plane": ["segment_start", "segment_end", "plane_point", "plane_normal"],
+        "plane_to_plane": ["plane_point1", "plane_normal1", "plane_point2", "plane_normal2"],
+        "plane_to_triangle": ["plane_point", "plane_normal", "triangle_points"],
+        "plane_to_rectangle": ["plane_point", "plane_normal", "rectangle_center", "rectangle_axes",
+                               "rectangle_lengths"],
+        "plane_to_box": ["plane_point", "plane_normal", "box2origin", "size"],
+    }[fname]
+    d, p1, p2 = getattr(dd, fname)(*[a[k] for k in order])
+    return {"d": float(d), "p1": np.asarray(p1).tolist(), "p2": np.asarray(p2).tolist()}
+
+
+def _flat(args, fname):
+    """scalars in the order the driver function parses them"""
+    out = []
+    if fname == "plane_to_box":
+        T = np.array(args["box2origin"], dtype=float)
+        out += list(args["plane_point"]) + list(args["plane_normal"])
+        out += T[:3, :3].reshape(-1).tolist() + T[:3, 3].tolist() + list(args["size"])
+        return out
+    names = FUNCS[fname]["params"][0] + FUNCS[fname]["params"][1]
+    for k in names:
+        out += np.array(args[k], dtype=float).reshape(-1).tolist()
+    return out
+
+
+def _enc(vals, mode):
+    if mode == "F":
+        return [f2h(x) for x in vals]
+    return [core.q2s(Fraction(float(x))) for x in vals]
+
+
+def _parse(out, mode):
+    """driver output -> dict(br, d, p1, p2, t1, t2) or dict(err=…)"""
+    parts = out.split()
+    if not parts or parts[0] == "bad":
+        return {"bad": out}
+    if parts[0] == "err":
+        return {"err": parts[1]}
+    conv = core.h2f if mode == "F" else (lambda s: core.s2q(s))
+    br = int(parts[1])
+    nums = [conv(x) for x in parts[2:] if ("/" in x or len(x) == 16)]
+    r = {"br": br, "d": nums[0]}
+    rest = nums[1:]
+    if len(rest) >= 6:
+        r["p1"], r["p2"] = rest[0:3], rest[3:6]
+        if len(rest) >= 8:
+            r["t1"], r["t2"] = rest[6], rest[7]
+    else:
+        r["p2"] = rest[0:3]
+        if len(rest) >= 4:
+            r["t1"] = rest[3]
+    return r
+
+
+def _scale(args):
+    m = 1.0
+    for k, v in args.items():
+        a = np.abs(np.array(v, dtype=float))
+        if k in ("box2origin",):
+            a = a[:3, 3]
+        if a.size:
+            m = max(m, float(a.max()))
+    return m
+
+
+def _cond(fname, args):
+    """condition allowance (>= 1): amplification of input rounding by the division of the branch taken"""
+    a = {k: np.array(v, dtype=float) for k, v in args.items()}
+    if fname == "line_to_line":
+        c = float(np.dot(a["line_direction1"], a["line_direction2"]))
+        det = abs(1.0 - c * c)
+        return 1.0 / max(det, 1e-6) if det >= 1e-7 else 1.0
+    if fname in ("line_to_line_segment", "line_segment_to_line_segment"):
+        if fname == "line_to_line_segment":
+            d1, d2 = a["segment_end"] - a["segment_start"], a["line_direction"]
+        else:
+            d1, d2 = a["segment_end1"] - a["segment_start1"], a["segment_end2"] - a["segment_start2"]
+        aa, ee, bb = np.dot(d1, d1), np.dot(d2, d2), np.dot(d1, d2)
+        den = aa * ee - bb * bb
+        return min(1e7, aa * ee / den) if den > 0 else 1.0
+    if fname in ("line_to_plane", "line_segment_to_plane"):
+        if fname == "line_to_plane":
+            ld = a["line_direction"]
+        else:
+            ld = a["segment_end"] - a["segment_start"]
+            ld = ld / max(np.linalg.norm(ld), 1e-300)
+        l = abs(float(np.dot(ld, a["plane_normal"])))
+        return 1.0 / max(l, 1e-3)
+    if fname == "plane_to_plane":
+        m = float(np.linalg.norm(np.cross(a["plane_normal1"], a["plane_normal2"])))
+        return 1.0 / max(m * m, 1e-12) if m > 1e-6 else 1.0
+    if fname in ("plane_to_triangle", "plane_to_rectangle", "plane_to_box", "plane_to_ellipsoid",
+                 "plane_to_cylinder"):
+        return 1e3
+    return 1.0
+
+
+def _close(py, mo, tol, fields=("d", "p1", "p2"), dsq=False):
+    """dsq: the distance is sqrt(|q|) of a quantity q that suffers cancellation when the primitives
+    (nearly) intersect (`_line_to_line`): compare q = d^2 with the tolerance scaled accordingly"""
+    worst = 0.0
+    if dsq and "d" in fields:
+        fields = tuple(f for f in fields if f != "d")
+        w = abs(float(py["d"]) ** 2 - float(mo["d"]) ** 2)
+        if not (w <= tol * max(1.0, float(py["d"]))) or not math.isfinite(py["d"]):
+            return False, w
+    for f in fields:
+        if f not in py or f not in mo:
+            continue
+        x = np.array(py[f], dtype=float).reshape(-1)
+        y = np.array([float(v) for v in (mo[f] if isinstance(mo[f], (list, tuple)) else [mo[f]])])
+        if x.shape != y.shape:
+            return False, float("inf")
+        if not np.all(np.isfinite(x)):
+            return False, float("inf")
+        worst = max(worst, float(np.max(np.abs(x - y))) if x.size else 0.0)
+    return worst <= tol, worst
+
+
+def run_correspondence(ctx, cases, tag):
+    """cases: list of (fname, stream, args)."""
+    drv = core.Driver("c10-" + tag)
+    plan = []
+    for fname, stream, args in cases:
+        try:
+            with np.errstate(all="ignore"):
+                py = corr_impl(fname, args)
+        except Exception as e:  # noqa
+            py = {"exc": type(e).__name__ + ": " + str(e)[:200]}
+        if fname in ("plane_to_ellipsoid", "plane_to_cylinder"):
+            if "support" not in py:
+                ctx.broke("correspondence", "distance." + fname, "implementation raised %s" % py.get("exc"),
+                          {"function": fname, "args": args})
+                continue
+            vals = list(args["plane_point"]) + list(args["plane_normal"]) + py["support"]
+            dfn = "C10.plane_to_support_pair"
+        else:
+            vals = _flat(args, fname)
+            dfn = "C10." + fname
+        cf = drv.add(dfn, "F", _enc(vals, "F"))
+        cq = drv.add(dfn, "Q", _enc(vals, "Q"))
+        plan.append((fname, stream, args, cf, cq, py))
+    out = drv.run()
+    env = ctx.extra.setdefault("rounding_envelope", {})
+    ties = ctx.extra.setdefault("ties_arbitrated", {})
+    for fname, stream, args, cf, cq, py in plan:
+        mf = _parse(out.get(cf, "bad missing"), "F")
+        mq = _parse(out.get(cq, "bad missing"), "Q")
+        key = (fname, tuple(_enc(_flat(args, fname), "F")))
+        ctx.count("corr:" + stream, key=key, sample={"fn": fname, "stream": stream, "args": args})
+        name = "distance." + fname
+        seed_input = {"function": fname, "args": args}
+        if "bad" in mf or "bad" in mq:
+            ctx.broke("correspondence", name, "driver: %s / %s" % (mf.get("bad"), mq.get("bad")), seed_input)
+            continue
+        if "err" in mq or "err" in mf:
+            # the model reports a division by zero: the implementation must show inf/nan or raise
+            ctx.branch(fname, "err:" + str(mq.get("err", mf.get("err"))))
+            bad_py = "exc" in py or not all(np.all(np.isfinite(np.array(py[k], dtype=float)))
+                                            for k in ("d", "p1", "p2") if k in py)
+            if not bad_py:
+                ctx.broke("correspondence", name, "model says %s / %s, implementation returns finite %s" % (mf, mq, py),
+                          seed_input)
+            continue
+        if "exc" in py:
+            ctx.broke("correspondence", name, "implementation raised %s, model ok (branch %s)" % (py["exc"], mq["br"]),
+                      seed_input)
+            continue
+        ctx.branch(fname, mq["br"])
+        if "t1" in mq and fname not in ("point_to_line", "line_to_line"):
+            ctx.branch(fname + ":clamp", "%d%d" % (_region(mq.get("t1")), _region(mq.get("t2", 0))))
+        sc = _scale(args)
+        exact = stream in ("L", "M") and all(float(x) * 4096 == round(float(x) * 4096) and abs(x) < 64 for x in _flat(args, fname)) and stream == "M" or stream == "L" and all(float(x) == round(float(x) * 2) / 2 for x in _flat(args, fname)
+                                      if not isinstance(x, bool))
+        exact = exact and fname not in ("plane_to_ellipsoid", "plane_to_cylinder")
+        tol = (1e-12 if exact else 1e-9 * _cond(fname, args)) * sc
+        dsq = fname == "line_to_line"
+        okF, wF = _close(py, mf, tol, dsq=dsq)
+        okQ, wQ = _close(py, mq, tol, dsq=dsq)
+        if okQ:
+            env[fname] = max(env.get(fname, 0.0), wQ / sc)
+        if exact:
+            # all decisions are exact: branch ids must agree exactly between Float and Rat model
+            if mf["br"] != mq["br"]:
+                # a decision whose exact margin is zero (e.g. `t <= segment_length` for a segment ending exactly on
+                # the plane, where `segment_length` is an irrational square root): Float and exact evaluation may
+                # take different sides; both sides must then give the same values
+                ties[fname] = ties.get(fname, 0) + 1
+                if not (okF and (okQ or _close(py, mq, 1e-9 * sc, dsq=dsq)[0])):
+                    ctx.broke("correspondence", name,
+                              "lattice input: Float model branch %s != Rat model branch %s and the values differ: "
+                              "implementation %s vs model F %s / Q %s" % (mf["br"], mq["br"], py, _fl(mf), _fl(mq)),
+                              seed_input)
+                continue
+            if not (okF and okQ):
+                ctx.broke("correspondence", name,
+                          "lattice input (exact arithmetic): implementation %s vs model F %s / Q %s (|Δ| F %.3g Q %.3g > %.3g)"
+                          % (py, _fl(mf), _fl(mq), wF, wQ, tol), seed_input)
+            continue
+        if okF or okQ:
+            if mf["br"] != mq["br"]:
+                ties[fname] = ties.get(fname, 0) + 1
+            continue
+        # disagreement with both: a branch flip between Float and exact evaluation is a tie — then only the
+        # distance has to agree with one of them (points may differ along a degenerate direction)
+        if mf["br"] != mq["br"] or _near_decision(fname, args):
+            ties[fname] = ties.get(fname, 0) + 1
+            okd = _close(py, mf, tol, ("d",), dsq=dsq)[0] or _close(py, mq, tol, ("d",), dsq=dsq)[0]
+            if okd:
+                continue
+        ctx.broke("correspondence", name,
+                  "implementation %s vs model F %s / Q %s (|Δ| F %.3g Q %.3g > %.3g, scale %.3g)"
+                  % (py, _fl(mf), _fl(mq), wF, wQ, tol, sc), seed_input)
+
+
+def _region(t):
+    if t is None:
+        return 9
+    return 0 if t <= 0 else (2 if t >= 1 else 1)
+
+
+def _fl(m):
+    return {k: ([float(x) for x in v] if isinstance(v, (list, tuple)) else (float(v) if k != "br" else v))
+            for k, v in m.items()}
+
+
+def _near_decision(fname, args):
+    """exact (Fraction) recomputation of the deciding quantity of the epsilon tests: True when the input sits
+    within 1e-9 (relative) of the threshold, where Float and exact evaluation may legitimately take different
+    branches"""
+    F = lambda v: [Fraction(float(x)) for x in v]  # noqa
+    dot = lambda u, v: sum(x * y for x, y in zip(u, v))  # noqa
+    if fname == "line_to_line":
+        c = dot(F(args["line_direction1"]), F(args["line_direction2"]))
+        det = abs(1 - c * c)
+        return abs(det - Fraction(1, 10 ** 6)) < Fraction(1, 10 ** 15)
+    if fname == "line_to_plane":
+        l = dot(F(args["line_direction"]), F(args["plane_normal"]))
+        return abs(l * l - Fraction(1, 10 ** 6)) < Fraction(1, 10 ** 15)
+    if fname in ("line_to_line_segment", "line_segment_to_line_segment"):
+        if fname == "line_to_line_segment":
+            d1 = [y - x for x, y in zip(F(args["segment_start"]), F(args["segment_end"]))]
+            d2 = F(args["line_direction"])
+        else:
+            d1 = [y - x for x, y in zip(F(args["segment_start1"]), F(args["segment_end1"]))]
+            d2 = [y - x for x, y in zip(F(args["segment_start2"]), F(args["segment_end2"]))]
+        a, e, b = dot(d1, d1), dot(d2, d2), dot(d1, d2)
+        return abs(a * e - b * b) <= Fraction(1, 10 ** 12) * a * e
+    if fname in ("plane_to_ellipsoid", "plane_to_cylinder"):
+        return False
+    if fname in ("plane_to_triangle", "plane_to_rectangle", "plane_to_box"):
+        # argmin/argmax over the vertex heights: two (nearly) equal heights make the chosen vertex a tie
+        ts = sorted(_hull_heights(fname, args))
+        sc = _scale(args)
+        return any(abs(x - y) <= 1e-9 * sc for x, y in zip(ts, ts[1:])) or \
+            any(abs(abs(x) - abs(y)) <= 1e-9 * sc for i, x in enumerate(ts) for y in ts[i + 1:])
+    return False
+
+
+def _hull_heights(fname, args):
+    a = {k: np.array(v, dtype=float) for k, v in args.items()}
+    if fname == "plane_to_triangle":
+        pts = a["triangle_points"]
+    elif fname == "plane_to_rectangle":
+        co = np.array([[-0.5, -0.5], [-0.5, 0.5], [0.5, -0.5], [0.5, 0.5]])
+        pts = a["rectangle_center"] + (co * a["rectangle_lengths"]).dot(a["rectangle_axes"])
+    else:
+        co = np.array([[i, j, k] for i in (-0.5, 0.5) for j in (-0.5, 0.5) for k in (-0.5, 0.5)])
+        T = a["box2origin"]
+        pts = T[:3, 3] + (co * a["size"]).dot(T[:3, :3].T)
+    return ((pts - a["plane_point"]).dot(a["plane_normal"])).tolist()
+
+
 def correspondence(ctx):
-    # filled by the Lean vertical
-    pass
+    """Lean model (F and Q mode) vs implementation on (a) generators built around the model's decisions
+    (corr_gen: lattice / general; corr_gen_edge: malformed), (b) the placement generators of the search
+    (gen_case), (c) the recorded witnesses of the modelled functions (the faithful model must reproduce the
+    defective outputs too)."""
+    n = ctx.budget(300, 6000)
+    cases = []
+    for k in _known_list():
+        w = k.get("witness", {})
+        if w.get("fn") in MODELLED and isinstance(w.get("args"), dict):
+            cases.append((w["fn"], "K", w["args"]))
+    for fname in MODELLED:
+        for i in range(n):
+            stream = "L" if i % 2 == 0 else "G"
+            cases.append((fname, stream, corr_gen(ctx.rng, fname, stream)))
+        for i in range(n // 3):
+            stream = "L" if i % 2 == 0 else "G"
+            cases.append((fname, stream + "p", gen_case(ctx.rng, fname, stream)))
+        for i in range(max(10, n // 5)):
+            a = corr_gen_edge(ctx.rng, fname)
+            if a is not None:
+                cases.append((fname, "M", a))
+    run_correspondence(ctx, cases, "corr")
+    unreached = {}
+    for fn, ids in EXPECTED_BRANCHES.items():
+        seen = set(ctx.branches.get(fn, {}))
+        miss = [i for i in ids if str(i) not in seen]
+        if miss:
+            unreached[fn] = miss
+    ctx.extra["unreached_branches"] = unreached
+    ctx.notes.append("plane_to_triangle/rectangle/box branches 1, 2 (t outside the segment although the end points "
+                     "straddle the plane) are unreachable in exact arithmetic (straddle_hit); branch 3 is the band "
+                     "defect F-c10-plane-hull-swapped; plane_to_box/ellipsoid/cylinder cannot reach it inside domain P")
 
 
 # quick-tier cases per function and stream (interpreted engine; calibrated so the whole quick search stays < 40 s)
-QUICK = {f: 300 for f in FUNCS}
+QUICK = {f: 1200 for f in FUNCS}
+QUICK.update({"point_to_triangle": 800, "point_to_ellipsoid": 800, "line_to_triangle": 800,
+              "line_segment_to_triangle": 800, "plane_to_triangle": 800, "line_to_circle": 1000,
+              "line_segment_to_circle": 1000, "line_to_rectangle": 1000, "line_segment_to_rectangle": 1000,
+              "disk_to_disk": 1000, "triangle_to_triangle": 400, "triangle_to_rectangle": 400,
+              "rectangle_to_rectangle": 400, "rectangle_to_box": 250})
 THOROUGH_FACTOR = 8
 
 
@@ -1135,6 +1931,7 @@ def search(ctx):
                 args, tag = gen_case_tagged(ctx.rng, fname, stream)
                 check_case(ctx, fname, args, stream, tag=tag)
     ctx.extra["search_cases_per_function"] = per
+    ctx.extra["search_streams"] = ["L", "G"]
 
 
 def replay(ctx, payload):
